@@ -8,7 +8,7 @@ from vmon import boot, events
 from vmon.gen import patterns, planted
 from vmon.oracle import geometry as G
 
-from vmon.oracle.util import clone
+from vmon.oracle.util import elements_of, clone
 
 PROPERTY = "C03"
 RULE = ("For a base search (structure, pattern, atol) the match set of the real search is recorded and compared, after "
@@ -170,7 +170,7 @@ def metamorphic(ctx, st, S, P, atol, rng, w, dims, seed, n_hint=4, real=False):
         compare(ctx, st, base, r, "shift+wrap by %s" % np.round(shift, 3).tolist(), w)
     # 2. permutation of the atoms
     perm = rng.permutation(n)              # new structure lists old atom perm[j] at position j
-    S2 = Atoms(elements=[S.elements[i] for i in perm], positions=np.asarray(S.positions, float)[perm], cell=cell)
+    S2 = Atoms(elements=[elements_of(S)[i] for i in perm], positions=np.asarray(S.positions, float)[perm], cell=cell)
     r, _, _, exc = run_search(S2, P, atol, seed=seed)
     if exc is not None:
         ctx.fail("search on the permuted structure raised %s" % type(exc).__name__, witness=w)
@@ -298,7 +298,7 @@ def run_case(case, ctx):
         S, P = built["atoms"], patterns.to_atoms(pat)
         w = {"kind": case["kind"], "cell": np.round(built["cell"], 5).tolist(), "atol": atol, "pattern_elements": pat["elements"],
              "pattern_positions": pos.tolist(), "orientation_atom_off_axis_by": eps, "planted": built["planted"],
-             "structure_elements": list(S.elements), "structure_positions": np.asarray(S.positions, float).tolist()}
+             "structure_elements": elements_of(S), "structure_positions": np.asarray(S.positions, float).tolist()}
         FOUND_AS.clear()
         base, _, _, exc = run_search(S, P, atol, seed=case["s"])
         if exc is not None or not base:
